@@ -65,7 +65,7 @@ CHECK_DEADLOCK FALSE
         opts = {"block_size": 16, "padding": -1}
         if st is not None:
             opts["seektable"] = st
-        for frames in ((40, 48) if t == "quick" else (16, 33, 40, 48, 64)):
+        for frames in ((40, 48) if t == "quick" else (16, 17, 31, 33, 40, 48, 64, 100, 130)):
             # depths / rates the frame header has no code of its own for come from STREAMINFO, which an interrupted encode does have
             jobs.append({"fe": fe, "channels": rnd.choice([1, 2]), "bps": rnd.choice([8, 16, 13, 17]), "rate": rnd.choice([44100, 96001, 1, 700001]),
                          "frames": frames, "declared": declared, "every_byte": True, "signal": rnd.choice(["walk", "noise", "sine"]), "seed": rnd.randint(1, 9999), "opts": opts})
@@ -80,7 +80,7 @@ CHECK_DEADLOCK FALSE
                          "declared_frames": decl, "chunk_frames": chunk, "every_byte": True, "signal": rnd.choice(["walk", "noise", "sine"]),
                          "seed": rnd.randint(1, 9999), "opts": opts})
     # larger inputs with default padding / bigger blocks: cuts at every underlying write call
-    for i in range(10 if t == "quick" else 60):
+    for i in range(10 if t == "quick" else 600):
         bs = rnd.choice([16, 64, 256, 1152, 4096])
         jobs.append({"fe": rnd.choice(["byte-le", "sample", "channel"]), "channels": rnd.choice([1, 2, 3, 6]), "bps": rnd.choice([8, 16, 24]),
                      "frames": bs * rnd.randint(2, 4) + rnd.randint(0, bs - 1), "declared": rnd.random() < 0.5, "every_byte": False,
